@@ -21,6 +21,10 @@ CHECKS = {
    technique='stateless schedule exploration (preemption- and deviation-bounded DFS with happens-before state caching) of the real BackgroundTaskManager under a cooperative scheduler with virtual time',
    text='All schedules within the bound of 2-4 driver threads (prioritized Do/Done pairs, concurrent InvokeBackgroundTask callers) with harness bodies that notice cancellation 0-2 steps late; oracle on ghost state: no start while a prioritized task is in progress/in its silence period, cancellation reaches running bodies, concurrency bound, no self-overlap, nothing running after the invocation returns, every invocation completes.',
    note='sequential consistency at instrumented operations; decision..spawn atomic (no sync op in between); x/sync/semaphore instrumented copy; silence period and context timeout on the virtual clock'),
+ 'C17': dict(level='model_checking', design='3/C17',
+   technique='explicit-state BFS over RPC histories (Init/Mount/Check/Unmount/Close/restart) of the real fusemanager.Server with injected backend failures and crash-restarts at every statement-level crash hook, canonical-state deduplication, per-state invariant vs a ghost model',
+   text='Every history up to depth 5 (quick) / 6 (thorough) with <=1 / <=2 failure deviations and crash-restarts; after every op: store record vs served mountpoints, routing of Check/Unmount to the mounting instance, no double mount, restore after restart with recorded labels, unknown unmount succeeds, RPCs before initialisation fail.',
+   note='service.NewFileSystem and mountinfo.GetMounts replaced by recording fakes through instrumentation seams; bbolt commit atomic; process crash model (no power loss)'),
 }
 
 NOT_YET = 'check not built yet in this session (work in progress; see DESIGN.md section 3)'
